@@ -8,8 +8,8 @@
       the current Block as the next decompression target, and a cache may keep
       a pointer to it) and with the cache hooks cacheSwap / cachePut / the Peek
       chain of nextBlockAt / SetCache, over functional models of
-      bgzf/cache LRU, FIFO and Random (as written, including FIFO.Get leaving a
-      used block indexed).
+      bgzf/cache LRU, FIFO and Random (as written: FIFO.Get leaves a used block
+      indexed and FIFO.Put answers (nil, false) for a block it still indexes).
     Decompression is abstract: fetching the member at a file offset yields its
     data ([fetch]).  The underlying io.ReadSeeker is an exact byte source.
     Executable definitions only. *)
@@ -270,7 +270,13 @@ Definition tlen (c : cstate) : Z := zlen (c_table c).
 Definition c_put (st : store) (c : cstate) (bid : nat) : outcome (cstate * option nat * bool) :=
   let b := sget st bid in
   match tget (c_table c) (b_base b) with
-  | Some _ => Ok (c, Some bid, false)
+  | Some nid =>
+      (* FIFO.Put: a block that is still indexed here (Get hands out a used
+         block without removing it) is not reported as free for reuse *)
+      match c_kind c with
+      | KFIFO => if Nat.eqb (nth nid (c_nodes c) O) bid then Ok (c, None, false) else Ok (c, Some bid, false)
+      | _ => Ok (c, Some bid, false)
+      end
   | None =>
       match c_kind c with
       | KRandom =>
